@@ -781,7 +781,7 @@ func SingleServiceAccumulation(input SingleServiceAccumulationInput) (output Sin
 		}
 	}
 
-	sort.Slice(iT, func(i, j int) bool {
+	sort.SliceStable(iT, func(i, j int) bool {
 		return iT[i].SenderID < iT[j].SenderID
 	})
 
